@@ -6,11 +6,13 @@ package broker
 
 import (
 	"errors"
+	"io"
 	"net"
 	"regexp"
 	"time"
 
 	"github.com/emitter-io/stats"
+	"github.com/kelindar/rate"
 
 	"github.com/emitter-io/emitter/internal/event"
 	"github.com/emitter-io/emitter/internal/message"
@@ -22,9 +24,17 @@ import (
 type hsock struct {
 	writes [][]byte
 	closed bool
+	in     []byte // what the client sends; EOF afterwards
 }
 
-func (s *hsock) Read(b []byte) (int, error) { return 0, nil }
+func (s *hsock) Read(b []byte) (int, error) {
+	if len(s.in) == 0 {
+		return 0, io.EOF
+	}
+	n := copy(b, s.in)
+	s.in = s.in[n:]
+	return n, nil
+}
 func (s *hsock) Write(b []byte) (int, error) {
 	s.writes = append(s.writes, append([]byte(nil), b...))
 	return len(b), nil
@@ -120,3 +130,10 @@ func hRegexpMatch(re *regexp.Regexp, b []byte) bool {
 	}
 	return true
 }
+
+// hMarshal stands in for encoding/json.Marshal under the symbolic executor (response bodies
+// are not the subject of any harness); natively the real one runs.
+func hMarshal(v interface{}) ([]byte, error) { return []byte("{}"), nil }
+
+// hLimit: the read rate limiter never throttles.
+func hLimit(l *rate.Limiter) bool { return false }
